@@ -137,8 +137,8 @@ def run(ctx: Ctx) -> int:
     r = ctx.tlc("MC_C18", INV % (2 if q else 3), dump=True, name="filter trees x clause classes")
     states = read_dump(r.dump)
     if q:
-        states = states[::12]
-        ctx.cov["replay_note"] = "quick: every 12th (tree, classes) state translated (all model-checked)"
+        states = states[::24]
+        ctx.cov["replay_note"] = "quick: every 24th (tree, classes) state translated (all model-checked)"
     elif len(states) > 120000:
         states = states[::4]
         ctx.cov["replay_note"] = "thorough: every 4th state translated (all model-checked)"
